@@ -86,7 +86,14 @@ def _make_service():
                 COUNTERS.instances.add(self)
 
         def on_connect(self, conn):
+            self.conn = conn
             COUNTERS.event("C")
+
+        def exposed_identity(self):
+            """what THIS connection was set up with: (credentials from the authenticator, endpoints seen by the server)"""
+            cfg = self.conn._config
+            ep = cfg.get("endpoints")
+            return (cfg.get("credentials"), tuple(tuple(x) if isinstance(x, (tuple, list)) else x for x in ep) if ep else None)
 
         def on_disconnect(self, conn):
             COUNTERS.event("D")
@@ -138,9 +145,10 @@ def _make_authenticator():
                 sock.settimeout(old)
             except OSError:
                 pass
-        if buf != TOKEN:
+        if buf[:3] != TOKEN[:3]:
             raise AuthenticationError("wrong token")
-        return sock, "token-ok"
+        # the last five bytes name the client: they become the connection's credentials
+        return sock, buf[3:].decode("latin1")
     return token_authenticator
 
 
@@ -223,6 +231,7 @@ class _Child(object):
         if hasattr(srv, "workers") and hasattr(srv, "polling_thread"):
             st["workers_alive"] = sum(1 for w in list(srv.workers) if w.is_alive())
             st["polling_alive"] = srv.polling_thread.is_alive()
+        st["yield_injections"] = globals().get("_YIELD_COUNTER", [0])[0]
         return st
 
     def do_close(self):
@@ -370,7 +379,51 @@ def _child_entry(argv):
     import rpyc
     if not os.path.abspath(rpyc.__file__).startswith(os.path.abspath(repo) + os.sep):
         raise SystemExit("rpyc imported from %s, expected %s" % (rpyc.__file__, repo))
+    if os.environ.get("RV_YIELD_INJECT", "1") != "0":
+        _install_yield_injection()
     _Child(args).main()
+
+
+def _install_yield_injection():
+    """Delay injection between critical sections of the per-client set-up path: at every source line of the functions that
+    accept, authenticate and wire up a client the running thread may give up the GIL (time.sleep(0)) or sleep for a
+    fraction of a millisecond, so that clients accepted at the same time really interleave inside those functions.
+    Only suspension is injected - no state is touched - so every interleaving it produces is one the OS could produce."""
+    import random
+    import rpyc.utils.server as srv
+    import rpyc.core.service as service
+    import rpyc.core.protocol as protocol
+    mon = sys.monitoring
+    tool = None
+    for tid in (4, 3, 5, 2):
+        try:
+            mon.use_tool_id(tid, "rv-yield-inject")
+            tool = tid
+            break
+        except ValueError:
+            continue
+    if tool is None:
+        return
+    rng = random.Random(os.getpid())
+    counter = [0]
+
+    def on_line(code, line):
+        counter[0] += 1
+        r = rng.random()
+        if r < 0.25:
+            time.sleep(0)
+        elif r < 0.30:
+            time.sleep(0.0004)
+    mon.register_callback(tool, mon.events.LINE, on_line)
+    funcs = [srv.Server._serve_client, srv.Server._authenticate_and_serve_client, srv.Server.accept, srv.ThreadedServer._accept_method,
+             srv.ThreadPoolServer._accept_method, srv.ThreadPoolServer._authenticate_and_build_connection,
+             srv.ThreadPoolServer._serve_requests, srv.ThreadPoolServer._drop_connection, srv.ThreadPoolServer._handle_poll_result,
+             service.Service.__dict__["_connect"].func, protocol.Connection.__init__]
+    for f in funcs:
+        code = getattr(f, "__code__", None)
+        if code is not None:
+            mon.set_local_events(tool, code, mon.events.LINE)
+    globals()["_YIELD_COUNTER"] = counter
 
 
 # ====================================================================================== harness side
@@ -505,7 +558,7 @@ class ServerProc(object):
         return ("unix", self.path) if self.unix else ("tcp", self.host, self.port)
 
     def raw(self, timeout=15.0, token=None):
-        """connected raw socket; token=True sends the right token, bytes sends those bytes first"""
+        """connected raw socket; token=True sends a right token, bytes sends those bytes first"""
         if self.unix:
             s = socket.socket(socket.AF_UNIX, socket.SOCK_STREAM)
             target = self.path
@@ -526,11 +579,15 @@ class ServerProc(object):
             raise
         return s
 
-    def good(self, sync_timeout=30, connect_timeout=15.0):
-        """well-behaved rpyc client over a fresh socket (sends the token first when the server authenticates)"""
+    def good(self, sync_timeout=30, connect_timeout=15.0, identity=None):
+        """well-behaved rpyc client over a fresh socket (sends the token first when the server authenticates;
+        `identity` = five characters that the authenticator turns into this connection's credentials)"""
         import rpyc
         from rpyc.core.stream import SocketStream
-        s = self.raw(connect_timeout, token=True if self.auth else None)
+        tok = True
+        if identity is not None:
+            tok = TOKEN[:3] + identity.encode("latin1")[:5].ljust(5, b"_")
+        s = self.raw(connect_timeout, token=tok if self.auth else None)
         s.settimeout(None)
         try:
             return rpyc.connect_stream(SocketStream(s), config={"sync_request_timeout": sync_timeout})
